@@ -650,7 +650,9 @@ func runBytes(c Case) *vt.Outcome {
 		cfg := runCfg{Via: via, Format: c.Format, Threads: 1, Validate: c.Validate, Chunk: c.Chunk}
 		if c.Chunk == 0 && (via == "auto" || c.Format == "vng") {
 			if meta, ok := looksLikeVNG(input); ok {
-				if !vngPreflight(meta, rep) {
+				ok, metaIssue := vngPreflight(meta, rep)
+				cfg.MetaIssue = metaIssue
+				if !ok {
 					o.Label("excluded:" + via + ":vng-metadata-would-crash-process")
 					continue
 				}
